@@ -194,6 +194,30 @@ func probeRecordFields(p *pkgFiles, fn *ast.FuncDecl, want []string) map[string]
 	return out
 }
 
+// probeLiteralTimeouts lists every `...Timeout` / `...Deadline` field set in a composite literal inside fn
+// (http.Client, http.Transport, net.Dialer, tls.Config, ...): time limits other than the configured one.
+func probeLiteralTimeouts(fn *ast.FuncDecl) []string {
+	var out []string
+	ast.Inspect(fn, func(n ast.Node) bool {
+		cl, ok := n.(*ast.CompositeLit)
+		if !ok || cl.Type == nil {
+			return true
+		}
+		for _, el := range cl.Elts {
+			kv, ok := el.(*ast.KeyValueExpr)
+			if !ok {
+				continue
+			}
+			k, ok := kv.Key.(*ast.Ident)
+			if ok && (strings.Contains(k.Name, "Timeout") || strings.Contains(k.Name, "Deadline")) && k.Name != "dataTimeout" {
+				out = append(out, probeExprString(cl.Type)+"."+k.Name+"="+probeExprString(kv.Value))
+			}
+		}
+		return true
+	})
+	return out
+}
+
 func genProbeConsts() {
 	var b bytes.Buffer
 	b.WriteString("(* GENERATED by tools/gen from pkg/scan/{elastic,docker}/*.go and command/{elastic,docker,config}.go. Do not edit. *)\n")
@@ -267,6 +291,7 @@ func genProbeConsts() {
 	}
 	fmt.Fprintf(&b, "Definition elastic_new_timeout_ns : Z := %s.\n", zlit(probeEvalConst(ep, ef["dataTimeout"], 0)))
 	str("elastic_new_proto_from", probeExprString(ef["proto"]))
+	fmt.Fprintf(&b, "Definition elastic_new_literal_timeouts : list string := %s%%string.\n", coqStringList(probeLiteralTimeouts(ens)))
 
 	// ---------------- docker
 	dp := parseDir(filepath.Join(*repo, "pkg/scan/docker"))
@@ -328,6 +353,7 @@ func genProbeConsts() {
 	}
 	fmt.Fprintf(&b, "Definition docker_new_timeout_ns : Z := %s.\n", zlit(probeEvalConst(dp, df["dataTimeout"], 0)))
 	str("docker_new_proto_from", probeExprString(df["proto"]))
+	fmt.Fprintf(&b, "Definition docker_new_literal_timeouts : list string := %s%%string.\n", coqStringList(probeLiteralTimeouts(dns)))
 
 	// ---------------- CLI
 	cp := parseDir(filepath.Join(*repo, "command"))
